@@ -1072,10 +1072,21 @@ class T:
     def sum(self, *a, **k):
         raise Unsupported("reduction sum")
 
-    def mean(self, *a, **k):
+    def mean(self, dim=None, **k):
+        if dim == -1 and self.tlen is not None and self.taxis == "last" and _is_one(self.tlen):
+            n = self.nan
+            return T(self.f(z3.IntVal(0)), "float" if self.dtype != "float" else self.dtype, None, None, self.eshape, n(z3.IntVal(0)) if callable(n) else n)
         raise Unsupported("reduction mean")
 
-    def nansum(self, *a, **k):
+    def nansum(self, dim=None, **k):
+        """nansum over a trailing axis of length 1 (the receptive-field axis represented by ONE arbitrary element:
+        the reduction is linear, so a per-term identity implies the identity of the sums)."""
+        if dim == -1 and self.tlen is not None and self.taxis == "last" and _is_one(self.tlen):
+            v = self.f(z3.IntVal(0))
+            n = self.nan_at(z3.IntVal(0))
+            if n is not None:
+                v = z3.If(n, coerce(z3.IntVal(0), self.dtype), v)
+            return T(v, self.dtype, None, None, self.eshape)
         raise Unsupported("reduction nansum")
 
     def view(self, *a):
